@@ -418,7 +418,10 @@ func c01World(t *testing.T, r *simcore.Run) any {
 		refOK := nref > 0
 		peerConfigured := npeer > 0
 		corr := float64(d.corr)
-		tol := func(cap float64) float64 { return 2 + cap*1e-12 }
+		// the correction is a whole number of nanoseconds and the cap a product of a factor and a
+		// whole number of nanoseconds: a single contribution may not exceed its cap at all (a
+		// clamp that rounds up instead of down is over it); the midpoint of two may round by one
+		tol := func(cap float64) float64 { return cap * 1e-12 }
 		abs := math.Abs(corr)
 		if d.corr == math.MinInt64 {
 			abs = math.MaxFloat64
@@ -441,7 +444,7 @@ func c01World(t *testing.T, r *simcore.Run) any {
 				return
 			}
 		default:
-			if abs > (caps[0]+caps[1])/2+tol(caps[1]) {
+			if abs > (caps[0]+caps[1])/2+1+tol(caps[1]) {
 				r.Fail("C01", "bound/both", "round %d: |correction| %v exceeds midpoint of caps %.3f / %.3f ns", k, d.corr, caps[0], caps[1])
 				return
 			}
